@@ -19,6 +19,7 @@ a constraint violation must be rejected; cases with undefined behaviour are only
 on every disagreement and on a sanity sample: two-witness rule.
 """
 import math
+import os
 import random
 import re
 import struct
@@ -41,7 +42,9 @@ PRELUDE = ('enum EU { EU_A = 1, EU_B = 2147483647 };\n'
            'enum EI { EI_N = -1, EI_A = 1, EI_M = 2147483647 };\n'
            'enum EL { EL_N = -1, EL_B = 0x100000000 };\n'
            'struct SO { char c; int i; double d; short a[3]; struct { char x; long y; } in; };\n'
+           'typedef enum EU tEU; typedef enum EI tEI; typedef enum EL tEL;\n'
            'extern int xo; extern int ao[8]; extern struct SO so;\n')
+PRELUDE_STRICT = ''.join(l + '\n' for l in PRELUDE.split('\n') if l and 'EL' not in l) + 'typedef enum EU tEU; typedef enum EI tEI;\n'
 DR_S = (0x4000004000000001, 0x7fffffbfffffffff, -0x4000004000000001, 0x20000030000001)  # int -> float32 double-rounding witnesses
 DR_U = (0x8000008000000001, 0x4000004000000001)
 
@@ -57,7 +60,13 @@ FAMILY = {
     'f-suffix': 'fold/float-literal-f-suffix-not-rounded',
     'float-cond': 'fold/float-condition-not-folded',
     'neg-fraction-to-unsigned': 'fold/float-to-unsigned-negative-fraction-rejected',
+    'cond-narrow': 'type/conditional-of-same-narrow-type-operands-not-promoted',
 }
+
+
+def gname(t):
+    """type name usable before ':' in a generic association ('enum E : 1' would read as a fixed underlying type)"""
+    return 't' + t.tag if isinstance(t, M.Enum) else M.cname(t)
 
 
 def tclass(t, tgt):
@@ -215,7 +224,10 @@ def run_cases(cases, tgt, targets, full=True, only=None):
     for target in targets:
         R = Runner(target)
         ok = [c for c in cases if c.kind == 'ok']
+        # every context on x86_64; on aarch64 for the cases that involve plain char (the only type whose values
+        # differ between the targets); data, assert and type everywhere
         allctx = full and target in FULL_CTX_TARGETS
+        charonly = target != 'x86_64-sysv'
         # -- static initialiser -------------------------------------------------------------------------
         items = [(c.i, '%s = %s;\n' % (M.cdecl(c.type, 'v%d' % c.i), c.src)) for c in ok if (c.ctxs is None or 'data' in c.ctxs) and want('data')]
         data, rej = R.many(items)
@@ -236,8 +248,8 @@ def run_cases(cases, tgt, targets, full=True, only=None):
             items = []
             for c in ok:
                 if (c.ctxs is None or 'type' in c.ctxs) and want('type'):
-                    items.append(('y%d' % c.i, 'int y%d = _Generic(%s, %s: 1, default: 2);\n' % (c.i, c.src, M.cname(c.etype))))
-                if allctx and c.ctxs is None and (c.i not in mism or only) and want('thread'):
+                    items.append(('y%d' % c.i, 'int y%d = _Generic(%s, %s: 1, default: 2);\n' % (c.i, c.src, gname(c.etype))))
+                if allctx and c.ctxs is None and (c.i not in mism or only) and want('thread') and not (charonly and '(char)' not in c.src):
                     items.append(('t%d' % c.i, '_Thread_local %s = %s;\n' % (M.cdecl(c.type, 't%d' % c.i), c.src)))
             data, rej = R.many(items)
             for key, _ in items:
@@ -264,7 +276,7 @@ def run_cases(cases, tgt, targets, full=True, only=None):
         if allctx:
             items, singles, exp = [], [], {}
             for c in ok:
-                if c.ctxs is not None:
+                if c.ctxs is not None or (charonly and '(char)' not in c.src):
                     continue
                 i = c.i
                 if not M.is_integer(c.etype):
@@ -380,7 +392,7 @@ def single_source(c, ctx, tgt):
     if ctx == 'assert':
         return PRELUDE + '_Static_assert(%s, "");\n' % eqtext(c.src, c.etype, c.evalue, tgt)
     if ctx == 'type':
-        return PRELUDE + 'int y = _Generic(%s, %s: 1, default: 2);\n' % (c.src, M.cname(c.etype))
+        return PRELUDE + 'int y = _Generic(%s, %s: 1, default: 2);\n' % (c.src, gname(c.etype))
     if ctx == 'cond':
         return PRELUDE + 'int c = %s ? 11 : 22;\n' % c.src
     if ctx in ('array', 'array-reject'):
@@ -420,28 +432,41 @@ def strict_family(c, obs, tgt):
             return None
         return 'logical'       # nested: no defect model, the trigger decides
     if 'to-bool' in c.trig:
-        x = a
-        while x[0] == 'cast' and x[2][0] != 'val':
-            x = x[2]
-        src = x[2] if x[0] == 'cast' else x
-        if src[0] == 'val' and c.type == M.BOOL:
-            _, ft, fv = src
-            if M.is_float(ft):
-                pred = 'rejected' if (fv != fv or fv < 0 or fv >= 2.0 ** 64) else bytes([int(fv) & 0xff])
-            else:
-                pred = bytes([fv & 0xff])
-            return 'to-bool' if dimg == pred else None
-        return None
+        src = a
+        while src[0] == 'cast' and M.unq(src[1])[0] != M.BOOL:
+            src = src[2]
+        if src[0] == 'cast':
+            src = src[2]
+        elif c.type != M.BOOL:
+            return None
+        try:
+            x = M.evaluate(src, tgt)
+        except (M.Invalid, M.Undefined):
+            return None
+        if c.type != M.BOOL or not M.is_arith(x.type):
+            return None
+        if M.is_float(x.type):
+            fv = x.value
+            pred = 'rejected' if (fv != fv or fv < 0 or fv >= 2.0 ** 64) else bytes([int(fv) & 0xff])
+        else:
+            pred = bytes([x.value & 0xff])
+        return 'to-bool' if dimg == pred else None
     if 'neg-fraction-to-unsigned' in c.trig and d == 'rejected':
         return 'neg-fraction-to-unsigned'
     if 'float-cond' in c.trig:
         return 'float-cond' if d == 'rejected' or obs.get('cond') == 'rejected' else None
     if c.kind == 'ok' and M.is_float(c.etype) and set(obs) == {'cond'} and obs['cond'] == 'rejected':
         return 'float-cond'      # the case itself folds; only its use as the condition of ?: is refused
+    if 'cond-narrow' in c.trig and set(obs) == {'type'}:
+        return 'cond-narrow'
     if 'int-to-float32' in c.trig:
         if c.stratum == 'cast' and c.type == M.FLOAT:
             src = a[2] if a[0] == 'cast' else a
-            return 'int-to-float32' if src[0] == 'val' and dimg == struct.pack('<f', M.f32(float(src[2]))) else None
+            try:
+                x = M.evaluate(src, tgt)
+            except (M.Invalid, M.Undefined):
+                return None
+            return 'int-to-float32' if M.is_integer(x.type) and dimg == struct.pack('<f', M.f32(float(x.value))) else None
         return 'int-to-float32'
     if 'f-suffix' in c.trig:
         return 'f-suffix'
@@ -655,7 +680,7 @@ def gen_flit(tgt):
         yield mkcase('flit', ('flit-' + form + 'neg', '-', '-'), ('un', '-', a), tgt, 'float-literal-neg')
 
 
-def gen_depth2(op1, op2, shape, tgt, nv):
+def gen_depth2(op1, op2, shape, tgt, nv, t3kinds):
     def vals(t):
         lo, hi = (0, 0) if M.is_float(t) else M.int_range(t, tgt)
         if M.is_float(t):
@@ -666,13 +691,14 @@ def gen_depth2(op1, op2, shape, tgt, nv):
             vs = [2, hi, (hi >> 1) + 1]
         return vs[:nv]
     V = {t: vals(t) for t in REDUCED}
+    V.update({KIND[k]: vals(KIND[k]) for k in t3kinds})
     for t1 in REDUCED:
         for t2 in REDUCED:
             try:
                 M.binary_type(op1, t1, t2, tgt)
             except M.Invalid:
                 continue        # the invalid (op, T1, T2) cells are judged at depth 1
-            for t3 in REDUCED:
+            for t3 in [KIND[k] for k in t3kinds]:
                 cell = ('d2' + shape + op1 + op2, t1.kind + t2.kind, t3.kind)
                 for v1 in V[t1]:
                     for v2 in V[t2]:
@@ -726,7 +752,11 @@ def addr_cases():
 # ---------------------------------------------------------------------------------------------------------
 # worker
 
+CAP = 25      # disagreeing cases per (job, family) that are replayed and put to the witnesses one by one
+
+
 def _job(spec):
+    t0 = os.times()
     stratum, cls = spec[0], spec[-1]
     targets = CLASSES[cls]
     tgt = M.TARGETS[targets[0]]
@@ -746,7 +776,7 @@ def _job(spec):
     elif stratum == 'flit':
         gen = gen_flit(tgt)
     elif stratum == 'depth2':
-        gen = gen_depth2(spec[1], spec[2], spec[3], tgt, spec[4])
+        gen = gen_depth2(spec[1], spec[2], spec[3], tgt, spec[4], spec[5])
         full = False
     else:
         raise ValueError(spec)
@@ -765,8 +795,19 @@ def _job(spec):
     cells = {c.cell for c in cases}
     values = {hash((c.etype, c.evalue if c.evalue == c.evalue else 'nan')) for c in cases if c.kind == 'ok'}
     recs = []
+    capped = {}
+    perkey = {}
     for i, ms in mism.items():
         c = cases[i]
+        obs = {}
+        for ctx, target, text, img in ms:
+            obs.setdefault(ctx, img)
+        pre = {'stratum': c.stratum, 'kind': c.kind, 'opclass': c.opclass, 'tclass': c.tclass, 'mism': ms, 'family': strict_family(c, obs, tgt)}
+        key = violation_key(pre)
+        perkey[key] = perkey.get(key, 0) + 1
+        if perkey[key] > CAP:
+            capped[key] = capped.get(key, 0) + 1      # same family, same job: counted, not consulted one by one
+            continue
         # replay every disagreeing (context, target) alone before it is reported
         one = Case()
         for k in Case.__slots__:
@@ -787,15 +828,18 @@ def _job(spec):
         ctx0, target0 = confirmed[0][0], confirmed[0][1]
         recs.append({
             'stratum': c.stratum, 'cell': c.cell, 'cls': cls, 'src': c.src, 'kind': c.kind, 'opclass': c.opclass, 'tclass': c.tclass,
-            'tname': M.cname(c.etype) if c.kind == 'ok' else None,
-            'decl': M.cdecl(c.type, 'v') if c.kind == 'ok' else None,
+            'tname': gname(c.etype) if c.kind == 'ok' else None,
             'eq': eqtext(c.src, c.etype, c.evalue, tgt) if c.kind == 'ok' else None,
             'expected': '%s %s' % (M.cname(c.type), vdesc(c.value)) if c.kind == 'ok' else c.kind,
             'mism': [(m[0], m[1], m[2]) for m in confirmed],
             'trig': sorted(c.trig), 'family': strict_family(c, obs, tgt),
             'input': single_source(c, ctx0, tgt), 'target': target0,
         })
-    sanity = [(cls, '_Static_assert(%s && _Generic(%s, %s: 1, default: 0), "");' % (eqtext(c.src, c.etype, c.evalue, tgt), c.src, M.cname(c.etype)))
+    stats['capped'] = capped
+    stats['disagreements'] = len(mism)
+    t1 = os.times()
+    stats['cpu_s'] = (t1[0] + t1[1]) - (t0[0] + t0[1])
+    sanity = [(cls, WLINE % (eqtext(c.src, c.etype, c.evalue, tgt), c.src, gname(c.etype)))
               for c in cases if c.kind == 'ok' and c.i not in mism and zlib.crc32(c.src.encode()) % (997 if stratum == 'depth2' else 101) == 0]
     ok = [c for c in cases if c.kind == 'ok' and c.i not in mism]
     sample = None
@@ -819,18 +863,21 @@ def _addr_job(cls):
                 out.append((target, text, sym, off, form, rejtext(rej[n])))
                 continue
             img, rel = ilparse.data_image(data['$p%d' % n])
-            if len(img) != 8 or len(rel) != 1 or rel[0][:3] != (0, 8, '$' + sym) or rel[0][3] != off:
-                out.append((target, text, sym, off, form, 'relocations %r' % (rel,)))
+            if len(img) != 8 or len(rel) != 1 or rel[0][:3] != (0, 8, '$' + sym) or rel[0][3] != off % (1 << 64):
+                out.append((target, text, sym, off, form, 'relocations %r' % ([(o, z, y, a - (1 << 64) if a >> 63 else a) for o, z, y, a in rel],)))
     return len(cases) * len(CLASSES[cls]), runs, out, len(ADDR_FORMS)
 
 
 # ---------------------------------------------------------------------------------------------------------
 # witnesses
 
+# clang refuses floating operands in _Static_assert but folds them in a file-scope array bound, as gcc does
+WLINE = 'typedef char w[(%s && _Generic(%s, %s: 1, default: 0)) ? 1 : -1];'
+
 def _witness_lines(args):
     """-> set of indices (into lines) some witness of the class does not accept"""
     cls, lines = args
-    src = PRELUDE + ''.join(l + '\n' for l in lines)
+    src = PRELUDE + ''.join(l.replace('typedef char w[', 'typedef char w%d[' % i, 1) + '\n' for i, l in enumerate(lines))
     first = PRELUDE.count('\n') + 1
     failing = set()
     runs = []
@@ -851,13 +898,19 @@ def _witness_lines(args):
 
 
 def _witness_rejects(args):
-    """True iff every witness of the class rejects the unit"""
+    """True iff every witness of the class rejects the unit.  'Is this a constraint violation' is what -std=c11
+    -pedantic-errors answers, so that mode is used whenever the unit uses no extension (binary literals, enum EL)."""
     cls, src = args
+    body = src[len(PRELUDE):]
+    strict = not re.search(r'\b0[bB][01]|\bEL\b|\btEL\b', body)
+    if strict:
+        src = PRELUDE_STRICT + body
+    std = 'c11' if strict else 'gnu11'
     res = []
     if cls == 's':
-        res.append(witness.gcc_accepts(src, std='gnu11', pedantic=False)[0])
+        res.append(witness.gcc_accepts(src, std=std, pedantic=strict)[0])
     for t in CLASSES[cls]:
-        res.append(witness.clang_accepts(src, target=t, std='gnu11', pedantic=False)[0])
+        res.append(witness.clang_accepts(src, target=t, std=std, pedantic=strict)[0])
     return not any(res)
 
 
@@ -892,9 +945,10 @@ def main(chk):
             jobs.append(('misc', cls))
         if chk.want('flit'):
             jobs.append(('flit', cls))
+        t3 = ('int', 'ulong', 'double') if q else tuple(t.kind for t in REDUCED)
         if chk.want('depth2'):
             for shape in ('L',) if q else ('L', 'R'):
-                jobs += [('depth2', o1, o2, shape, 2 if q else 3, cls) for o1 in M.BINOPS for o2 in M.BINOPS]
+                jobs += [('depth2', o1, o2, shape, 2 if q else 3, t3, cls) for o1 in M.BINOPS for o2 in M.BINOPS]
     if chk.want('lit'):
         jobs.append(('lit', 's'))
     random.Random(chk.seed).shuffle(jobs)
@@ -904,13 +958,17 @@ def main(chk):
     strata, cells, values, recs, sanity, samples = {}, set(), set(), [], [], []
     tot = {'runs': 0, 'transitions': 0, 'expected_reject': 0, 'undefined_nocrash': 0, 'cases': 0, 'ok': 0, 'pruned': 0, 'unconfirmed_on_replay': 0}
     ctxs = {}
+    capped = {}
     done = 0
     for spec, stats, r, c, v, s, sample in fs.pimap(_job, jobs):
         done += 1
-        st = strata.setdefault(spec[0], {'cases': 0, 'transitions': 0, 'disagreements': 0})
+        st = strata.setdefault(spec[0], {'cases': 0, 'transitions': 0, 'disagreements': 0, 'cpu_s': 0.0})
         st['cases'] += stats['cases'] * len(CLASSES[spec[-1]])
         st['transitions'] += stats['transitions']
-        st['disagreements'] += len(r)
+        st['disagreements'] += stats['disagreements']
+        st['cpu_s'] = round(st['cpu_s'] + stats['cpu_s'], 1)
+        for k, x in stats['capped'].items():
+            capped[k] = capped.get(k, 0) + x
         for k in tot:
             tot[k] += stats.get(k, 0)
         tot['cases'] += stats['cases'] * (len(CLASSES[spec[-1]]) - 1)
@@ -925,13 +983,15 @@ def main(chk):
         if chk.expired():
             chk.log('deadline: %d of %d jobs done' % (done, len(jobs)))
             break
-    chk.log('%d cases, %d observations, %d compiler runs, %d disagreements with R' % (tot['cases'], tot['transitions'], tot['runs'], len(recs)))
+    chk.log('%d cases, %d observations, %d compiler runs, %d disagreements with R (%d kept for consultation); worker cpu by stratum: %s' % (
+        tot['cases'], tot['transitions'], tot['runs'], sum(st['disagreements'] for st in strata.values()), len(recs),
+        {k: v['cpu_s'] for k, v in strata.items()}))
 
     # address constants
     addr_bad = []
     if chk.want('addr'):
         for ncase, runs, out, nforms in fs.pmap(_addr_job, list(CLASSES)):
-            strata.setdefault('addr', {'cases': 0, 'transitions': 0, 'disagreements': 0})
+            strata.setdefault('addr', {'cases': 0, 'transitions': 0, 'disagreements': 0, 'cpu_s': 0.0})
             strata['addr']['cases'] += ncase
             strata['addr']['transitions'] += ncase
             strata['addr']['disagreements'] += len(out)
@@ -949,7 +1009,7 @@ def main(chk):
     lines = {}
     index = {}
     for r in okrecs:
-        ln = '_Static_assert(%s && _Generic(%s, %s: 1, default: 0), "");' % (r['eq'], r['src'], r['tname'])
+        ln = WLINE % (r['eq'], r['src'], r['tname'])
         k = (r['cls'], ln)
         if k not in index:
             index[k] = len(lines.setdefault(r['cls'], []))
@@ -983,7 +1043,7 @@ def main(chk):
             report(chk, r)
             continue
         if r['kind'] == 'ok':
-            ln = '_Static_assert(%s && _Generic(%s, %s: 1, default: 0), "");' % (r['eq'], r['src'], r['tname'])
+            ln = WLINE % (r['eq'], r['src'], r['tname'])
             if index[(r['cls'], ln)] in failing[r['cls']]:
                 amb(r, 'a witness does not accept the value or type R assigns')
                 continue
@@ -1017,7 +1077,7 @@ def main(chk):
             ambiguous += 1
             chk.notes.append('ambiguous address constant %s: R %s%+d, clang %s' % (text, sym, off, woff))
             continue
-        chk.violation('address-constant/form-%d' % form, '%s (%s): expected %s%+d, compiler gave %s' % (text, target, sym, off, obs),
+        chk.violation('address-constant/' + re.sub(r'\{[nik]\}', 'N', ADDR_FORMS[form][0].split('= ')[1].rstrip(';')) + ('/rejected' if obs.startswith('rejected') else ''), '%s (%s): expected %s%+d, compiler gave %s' % (text, target, sym, off, obs),
                       files={'input.c': (PRELUDE + text + '\n').encode()}, cmd='$CPROC_QBE -t %s input.c' % target)
 
     cov = {
@@ -1036,8 +1096,9 @@ def main(chk):
         'expected_reject': tot['expected_reject'],
         'undefined_operations_checked_for_no_crash': tot['undefined_nocrash'],
         'depth2_cases_pruned_as_judged_at_depth1': tot['pruned'],
-        'disagreements_with_R': len(recs) + len(addr_bad),
+        'disagreements_with_R': sum(st['disagreements'] for st in strata.values()),
         'unconfirmed_on_replay': tot['unconfirmed_on_replay'],
+        'same_family_cases_not_individually_consulted': capped,
         'witness_sanity_lines': len(sanity),
         'witness_sanity_disagreements': sanity_disagree,
         'rule': 'state = (operator, operand type pair) cell of the folding table; transition = (cell, operand values, folding context, target) '
